@@ -80,9 +80,10 @@ CLAIMS = {
     text="Bounded model checking of CommitLog::readv / Segment::readv from invariant states built with the real Segment API "
          "(layout case-split: 1-3 segments, 0-2 entries; cursor offset symbolic over everything the log can issue incl. stale; "
          "len 0..=4; sizes symbolic) against a closed-form reference: exact retained suffix, order, own offsets, continuation, "
-         "caught-up flag, stale resume; fabricated cursors (any u64) never panic; a real history from CommitLog::new(1024, 1) "
-         "(two rotations + evictions) checks retention for the 1-segment limit. NOT decided: the append step from arbitrary "
-         "states and multi-segment retention histories (do not finish), more than 3 segments, DataLog.",
+         "caught-up flag, stale resume; fabricated cursors (any u64) never panic; the append step from 13 invariant pre-states "
+         "(1-3 segments, limit 1-3, active-segment size at every boundary of 'full'): rotates iff full, evicts exactly the "
+         "oldest whole segment iff at the limit, never exceeds the limit, offsets contiguous; a real history from "
+         "CommitLog::new(1024, 1). NOT decided: more than 3 segments / 2 entries per segment, DataLog.",
     design="DESIGN.md section 3 (C13)",
     technique="Kani/CBMC bounded model checking: shape-instantiated one-step harnesses with a closed-form reference"),
  "C18": dict(
